@@ -1,10 +1,1163 @@
 package storgen
 
-// placeholder (C20 generator follows)
-type ContHistory struct{}
-type ContGenConfig struct {
-	MaxExecs, MaxOps int
-	Injections       bool
+// C20: arrays and dictionaries against slice / map models. A ContHistory keeps one
+// variable-sized array [E], one constant-sized array [E; 8] and one dictionary
+// {K: E} in the storage of account 0x1 and applies long operation sequences to
+// them, grouped into transactions (commit + reload at every boundary) and scripts
+// (effects discarded), either in place through storage references or on the
+// loaded value that is saved back at the end ("local" mode). Bulk operations
+// (appendAll/concat/insertMany with up to 400 elements, bulk removal) cross the
+// atree slab split/merge thresholds. ContModel predicts every logged observable
+// and the digests of the committed containers.
+
+import (
+	"fmt"
+	"sort"
+	"strings"
+
+	"verif/lib/prog"
+)
+
+// Element types.
+const (
+	EInt = iota
+	EStr
+	EStruct // struct P with a nested array
+	EArr    // [Int]
+	NElem
+)
+
+// Key types.
+const (
+	KeyInt = iota
+	KeyStr
+)
+
+const ConstLen = 8
+const contMod = 1000000007
+
+var elemType = [NElem]string{"Int", "String", "D.P", "[Int]"}
+var elemTypeInContract = [NElem]string{"Int", "String", "P", "[Int]"}
+
+// ElemName is the printable name of an element type.
+var ElemName = [NElem]string{"Int", "String", "struct", "[Int]"}
+
+func keyType(k int) string {
+	if k == KeyInt {
+		return "Int"
+	}
+	return "String"
 }
 
-func GenContHistory(s Src, cfg ContGenConfig) ContHistory { return ContHistory{} }
+// elemPrimitive: indexing through a reference yields a value (not a reference).
+func elemPrimitive(e int) bool { return e == EInt || e == EStr }
+
+func elemEquatable(e int) bool { return e != EStruct }
+
+// ContContract returns the source of contract D for element type e and key type k.
+func ContContract(e, k int) string {
+	E := elemTypeInContract[e]
+	K := keyType(k)
+	var mk, d, refT, dr, key, kd string
+	switch e {
+	case EInt:
+		mk, d = "return n", "return x"
+		refT, dr = "Int", "return x"
+	case EStr:
+		mk = "return D.str(n, D.slen(n))"
+		d = "return D.ds(x)"
+		refT, dr = "String", "return D.ds(x)"
+	case EStruct:
+		mk = "return P(n)"
+		d = "return x.n * 31 + D.da(x.xs)"
+		refT, dr = "&P", "return x.n * 31 + D.da(*x.xs)"
+	case EArr:
+		mk = "return D.range(n, D.alen(n))"
+		d = "return D.da(x)"
+		refT, dr = "&[Int]", "return D.da(*x)"
+	}
+	if k == KeyInt {
+		key, kd = "return k", "return k"
+	} else {
+		key, kd = `return "k".concat(k.toString())`, "return Int.fromString(k.slice(from: 1, upTo: k.length))!"
+	}
+	r := strings.NewReplacer("KEYBODY", key, "KDBODY", kd, "MKBODY", mk, "DRBODY", dr, "DBODY", d, "REFT", refT, "ELEM", E, "KEY", K)
+	return r.Replace(`access(all) contract D {
+  access(all) struct P {
+    access(all) let n: Int
+    access(all) let xs: [Int]
+    init(_ n: Int) { self.n = n; self.xs = D.range(n, n % 5) }
+  }
+  access(all) fun range(_ from: Int, _ n: Int): [Int] {
+    var r: [Int] = []
+    var i = 0
+    while i < n { r.append(from + i); i = i + 1 }
+    return r
+  }
+  access(all) fun str(_ k: Int, _ n: Int): String {
+    var s = "s".concat(k.toString())
+    while s.length * 2 <= n { s = s.concat(s) }
+    while s.length < n { s = s.concat("x") }
+    return s
+  }
+  access(all) fun slen(_ n: Int): Int {
+    if n % 7 == 0 { return 600 }
+    if n % 3 == 0 { return 200 }
+    return 2 + n % 4
+  }
+  access(all) fun alen(_ n: Int): Int {
+    if n % 11 == 0 { return 130 }
+    return n % 6
+  }
+  access(all) view fun da(_ a: [Int]): Int {
+    var sum = 0
+    for e in a { sum = sum + e }
+    return a.length * 1009 + sum
+  }
+  access(all) view fun ds(_ s: String): Int {
+    var h = s.length * 1000
+    var m = s.length
+    if m > 8 { m = 8 }
+    let b = s.slice(from: 0, upTo: m).utf8
+    var i = 0
+    while i < b.length { h = h + (i + 1) * Int(b[i]); i = i + 1 }
+    return h
+  }
+  access(all) fun fail(_ m: String) { panic(m) }
+  access(all) fun mk(_ n: Int): ELEM { MKBODY }
+  access(all) fun mkMany(_ from: Int, _ count: Int): [ELEM] {
+    var r: [ELEM] = []
+    var i = 0
+    while i < count { r.append(D.mk(from + i)); i = i + 1 }
+    return r
+  }
+  access(all) view fun d(_ x: ELEM): Int { DBODY }
+  access(all) fun dr(_ x: REFT): Int { DRBODY }
+  access(all) fun key(_ k: Int): KEY { KEYBODY }
+  access(all) fun kd(_ k: KEY): Int { KDBODY }
+  // element digests through references
+  access(all) fun at(_ a: &[ELEM], _ i: Int): Int { return D.dr(a[i]) }
+  access(all) fun atc(_ a: &[ELEM; 8], _ i: Int): Int { return D.dr(a[i]) }
+  access(all) fun atd(_ m: &{KEY: ELEM}, _ k: KEY): Int? {
+    if let x = m[k] { return D.dr(x) }
+    return nil
+  }
+  // sequence digests: "length:hash"
+  access(all) fun hr(_ a: &[ELEM]): String {
+    var h = 7
+    var i = 0
+    while i < a.length { h = (h * 131 + D.dr(a[i])) % 1000000007; i = i + 1 }
+    return a.length.toString().concat(":").concat(h.toString())
+  }
+  access(all) fun hc(_ a: &[ELEM; 8]): String {
+    var h = 7
+    var i = 0
+    while i < a.length { h = (h * 131 + D.dr(a[i])) % 1000000007; i = i + 1 }
+    return a.length.toString().concat(":").concat(h.toString())
+  }
+  access(all) fun hi(_ a: [Int]): String {
+    var h = 7
+    for x in a { h = (h * 131 + x) % 1000000007 }
+    return a.length.toString().concat(":").concat(h.toString())
+  }
+  access(all) fun entry(_ k: KEY, _ v: Int): Int { return ((D.kd(k) + 1) * 7919 + v) % 1000000007 }
+  // dictionary digest, order independent: "count:sum"; all four enumeration forms must agree
+  access(all) fun hd(_ m: &{KEY: ELEM}): String {
+    var sum = 0
+    for k in m.keys { sum = (sum + D.entry(k, D.atd(m, k)!)) % 1000000007 }
+    return m.length.toString().concat(":").concat(sum.toString())
+  }
+  access(all) fun pad(_ m: Int): Int { return m }
+}`)
+}
+
+// ---- Go mirror of the contract's value/digest functions -----------------------
+
+func contStrLen(n int) int {
+	l := 2 + n%4
+	if n%7 == 0 {
+		l = 600
+	} else if n%3 == 0 {
+		l = 200
+	}
+	return l
+}
+
+func contStr(n int) string {
+	s := fmt.Sprintf("s%d", n)
+	l := contStrLen(n)
+	for len(s)*2 <= l {
+		s += s
+	}
+	for len(s) < l {
+		s += "x"
+	}
+	return s
+}
+
+func contArrLen(n int) int {
+	if n%11 == 0 {
+		return 130
+	}
+	return n % 6
+}
+
+func daInts(from, n int) int { return n*1009 + n*from + n*(n-1)/2 }
+
+// ElemDigest mirrors D.d(D.mk(n)).
+func ElemDigest(e, n int) int {
+	switch e {
+	case EInt:
+		return n
+	case EStr:
+		s := contStr(n)
+		h := len(s) * 1000
+		for i := 0; i < 8 && i < len(s); i++ {
+			h += (i + 1) * int(s[i])
+		}
+		return h
+	case EStruct:
+		return n*31 + daInts(n, n%5)
+	default:
+		return daInts(n, contArrLen(n))
+	}
+}
+
+// elemEqual mirrors Cadence equality of D.mk(a) and D.mk(b) (digests may collide, values do not).
+func elemEqual(e, a, b int) bool {
+	if a == b {
+		return true
+	}
+	return e == EArr && contArrLen(a) == 0 && contArrLen(b) == 0
+}
+
+// elemBig: the element is stored outside its parent slab.
+func elemBig(e, n int) bool {
+	switch e {
+	case EStr:
+		return contStrLen(n) >= 600
+	case EArr:
+		return contArrLen(n) >= bigLen
+	}
+	return false
+}
+
+func seqDigest(ds []int) string {
+	h := 7
+	for _, d := range ds {
+		h = (h*131 + d) % contMod
+		if h < 0 {
+			h += contMod
+		}
+	}
+	return fmt.Sprintf("%d:%d", len(ds), h)
+}
+
+// ---- operations ---------------------------------------------------------------
+
+// ContOp is one operation on the variable array ("va"), the constant array ("ca") or the dictionary ("d").
+type ContOp struct {
+	On   string `json:"on"`
+	Kind string `json:"kind"`
+	I    int    `json:"i,omitempty"`   // index / key / from
+	J    int    `json:"j,omitempty"`   // upTo / count / stop
+	N    int    `json:"n,omitempty"`   // element seed
+	M    int    `json:"m,omitempty"`   // closure parameter (modulus / addend)
+	R    int    `json:"r,omitempty"`   // closure parameter (remainder / factor)
+	Mode int    `json:"mode,omitempty"` // bulk removal mode
+}
+
+func (o ContOp) String() string {
+	return fmt.Sprintf("%s.%s(i=%d j=%d n=%d m=%d r=%d)", o.On, o.Kind, o.I, o.J, o.N, o.M, o.R)
+}
+
+type ContExec struct {
+	Script bool     `json:"script,omitempty"`
+	Local  bool     `json:"local,omitempty"` // operate on loaded values and save them back (else: in place through references)
+	Ops    []ContOp `json:"ops"`
+	Inject *Inject  `json:"inject,omitempty"`
+}
+
+type ContHistory struct {
+	Elem  int        `json:"elem"`
+	Key   int        `json:"key"`
+	Execs []ContExec `json:"execs"`
+}
+
+// ContState is the model state: elements are represented by their seeds.
+type ContState struct {
+	VA []int
+	CA [ConstLen]int
+	D  map[int]int
+}
+
+func (s *ContState) clone() *ContState {
+	c := &ContState{VA: append([]int(nil), s.VA...), CA: s.CA, D: map[int]int{}}
+	for k, v := range s.D {
+		c.D[k] = v
+	}
+	return c
+}
+
+type ContModel struct {
+	Elem, Key int
+	S         *ContState
+}
+
+func NewContModel(e, k int) *ContModel {
+	s := &ContState{D: map[int]int{}}
+	for i := range s.CA {
+		s.CA[i] = i + 1
+	}
+	return &ContModel{Elem: e, Key: k, S: s}
+}
+
+func (m *ContModel) digests(seeds []int) []int {
+	out := make([]int, len(seeds))
+	for i, n := range seeds {
+		out[i] = ElemDigest(m.Elem, n)
+	}
+	return out
+}
+
+func (m *ContModel) dictDigest(d map[int]int) string {
+	sum := 0
+	for k, n := range d {
+		sum = (sum + ((k+1)*7919+ElemDigest(m.Elem, n))%contMod) % contMod
+	}
+	return fmt.Sprintf("%d:%d", len(d), sum)
+}
+
+// VerifyExpect is what the verification script must return.
+func (m *ContModel) VerifyExpect() []string {
+	return []string{seqDigest(m.digests(m.S.VA)), seqDigest(m.digests(m.S.CA[:])), m.dictDigest(m.S.D)}
+}
+
+// ContFacts of one execution.
+type ContFacts struct {
+	BadIndex   bool // an operation used an invalid index / key-less removal and failed
+	MaxLen     int
+	GrewBy     int // elements added by a single bulk operation (≥ 60 crosses a slab split for every element type)
+	ShrankBy   int
+	RemovedBig bool
+}
+
+// ContExpect is the prediction for one execution.
+type ContExpect struct {
+	Logs    []string
+	Fail    string // "", "index", "inject"
+	ErrType string
+	Commits bool
+	Facts   ContFacts
+}
+
+func keepIf(d, m, r int) bool { return ((d%m)+m)%m == r }
+
+// apply executes one operation on the state; fail != "" when the operation aborts the execution.
+func (m *ContModel) apply(i int, o ContOp, x *ContExpect) (fail string) {
+	s := m.S
+	log := func(f string, args ...any) { x.Logs = append(x.Logs, fmt.Sprintf("%d:", i)+fmt.Sprintf(f, args...)) }
+	dig := func(n int) int { return ElemDigest(m.Elem, n) }
+	bad := func() string { x.Facts.BadIndex = true; return "index" }
+	switch o.On {
+	case "va":
+		n := len(s.VA)
+		switch o.Kind {
+		case "append":
+			s.VA = append(s.VA, o.N)
+			log("ok")
+		case "appendAll":
+			for k := 0; k < o.J; k++ {
+				s.VA = append(s.VA, o.I+k)
+			}
+			x.Facts.GrewBy = max(x.Facts.GrewBy, o.J)
+			log("ok")
+		case "insert":
+			if o.I < 0 || o.I > n {
+				return bad()
+			}
+			s.VA = append(s.VA[:o.I:o.I], append([]int{o.N}, s.VA[o.I:]...)...)
+			log("ok")
+		case "remove":
+			if o.I < 0 || o.I >= n {
+				return bad()
+			}
+			log("%d", dig(s.VA[o.I]))
+			x.Facts.RemovedBig = x.Facts.RemovedBig || elemBig(m.Elem, s.VA[o.I])
+			s.VA = append(s.VA[:o.I:o.I], s.VA[o.I+1:]...)
+		case "removeFirst":
+			if n == 0 {
+				return bad()
+			}
+			log("%d", dig(s.VA[0]))
+			s.VA = s.VA[1:]
+		case "removeLast":
+			if n == 0 {
+				return bad()
+			}
+			log("%d", dig(s.VA[n-1]))
+			s.VA = s.VA[:n-1]
+		case "dropMany":
+			cnt := 0
+			for k := 0; k < o.J && len(s.VA) > 0; k++ {
+				x.Facts.RemovedBig = x.Facts.RemovedBig || elemBig(m.Elem, s.VA[len(s.VA)/2])
+				s.VA = dropInts(s.VA, 1, o.Mode)
+				cnt++
+			}
+			x.Facts.ShrankBy = max(x.Facts.ShrankBy, cnt)
+			log("%d", len(s.VA))
+		case "get":
+			if o.I < 0 || o.I >= n {
+				return bad()
+			}
+			log("%d", dig(s.VA[o.I]))
+		case "set":
+			if o.I < 0 || o.I >= n {
+				return bad()
+			}
+			x.Facts.RemovedBig = x.Facts.RemovedBig || elemBig(m.Elem, s.VA[o.I])
+			s.VA[o.I] = o.N
+			log("ok")
+		case "length":
+			log("%d", n)
+		case "slice":
+			if o.I < 0 || o.J > n || o.I > o.J {
+				return bad()
+			}
+			log("%s", seqDigest(m.digests(s.VA[o.I:o.J])))
+		case "reverse":
+			r := make([]int, n)
+			for k, v := range s.VA {
+				r[n-1-k] = v
+			}
+			log("%s", seqDigest(m.digests(r)))
+		case "concat":
+			r := append([]int(nil), s.VA...)
+			for k := 0; k < o.J; k++ {
+				r = append(r, o.I+k)
+			}
+			log("%s", seqDigest(m.digests(r)))
+		case "concatAssign":
+			for k := 0; k < o.J; k++ {
+				s.VA = append(s.VA, o.I+k)
+			}
+			x.Facts.GrewBy = max(x.Facts.GrewBy, o.J)
+			log("%d", len(s.VA))
+		case "filter":
+			var r []int
+			for _, v := range s.VA {
+				if keepIf(dig(v), o.M, o.R) {
+					r = append(r, v)
+				}
+			}
+			log("%s", seqDigest(m.digests(r)))
+		case "filterAssign":
+			var r []int
+			for _, v := range s.VA {
+				if keepIf(dig(v), o.M, o.R) {
+					r = append(r, v)
+				} else {
+					x.Facts.RemovedBig = x.Facts.RemovedBig || elemBig(m.Elem, v)
+				}
+			}
+			x.Facts.ShrankBy = max(x.Facts.ShrankBy, n-len(r))
+			s.VA = r
+			log("%d", len(s.VA))
+		case "map":
+			r := make([]int, n)
+			for k, v := range s.VA {
+				r[k] = dig(v)*o.R + o.M
+			}
+			log("%s", seqDigest(r))
+		case "contains":
+			found := false
+			for _, v := range s.VA {
+				found = found || elemEqual(m.Elem, v, o.N)
+			}
+			log("%v", found)
+		case "firstIndex":
+			idx := -1
+			for k, v := range s.VA {
+				if elemEqual(m.Elem, v, o.N) {
+					idx = k
+					break
+				}
+			}
+			if idx < 0 {
+				log("nil")
+			} else {
+				log("%d", idx)
+			}
+		case "toConstantSized":
+			if n == ConstLen {
+				log("%s", seqDigest(m.digests(s.VA)))
+			} else {
+				log("nil")
+			}
+		case "digest":
+			log("%s", seqDigest(m.digests(s.VA)))
+		default:
+			panic("bad va op " + o.Kind)
+		}
+		x.Facts.MaxLen = max(x.Facts.MaxLen, len(s.VA))
+	case "ca":
+		switch o.Kind {
+		case "get":
+			if o.I < 0 || o.I >= ConstLen {
+				return bad()
+			}
+			log("%d", dig(s.CA[o.I]))
+		case "set":
+			if o.I < 0 || o.I >= ConstLen {
+				return bad()
+			}
+			x.Facts.RemovedBig = x.Facts.RemovedBig || elemBig(m.Elem, s.CA[o.I])
+			s.CA[o.I] = o.N
+			log("ok")
+		case "reverse":
+			var r [ConstLen]int
+			for k, v := range s.CA {
+				r[ConstLen-1-k] = v
+			}
+			log("%s", seqDigest(m.digests(r[:])))
+		case "contains":
+			found := false
+			for _, v := range s.CA {
+				found = found || elemEqual(m.Elem, v, o.N)
+			}
+			log("%v", found)
+		case "firstIndex":
+			idx := -1
+			for k, v := range s.CA {
+				if elemEqual(m.Elem, v, o.N) {
+					idx = k
+					break
+				}
+			}
+			if idx < 0 {
+				log("nil")
+			} else {
+				log("%d", idx)
+			}
+		case "toVariableSized", "digest":
+			log("%s", seqDigest(m.digests(s.CA[:])))
+		case "map":
+			r := make([]int, ConstLen)
+			for k, v := range s.CA {
+				r[k] = dig(v)*o.R + o.M
+			}
+			log("%s", seqDigest(r))
+		case "filter":
+			var r []int
+			for _, v := range s.CA {
+				if keepIf(dig(v), o.M, o.R) {
+					r = append(r, v)
+				}
+			}
+			log("%s", seqDigest(m.digests(r)))
+		case "fromVariable":
+			// ca = va.toConstantSized<[E; 8]>() ?? ca
+			if len(s.VA) == ConstLen {
+				copy(s.CA[:], s.VA)
+				log("set")
+			} else {
+				log("nil")
+			}
+		default:
+			panic("bad ca op " + o.Kind)
+		}
+	case "d":
+		old, has := s.D[o.I]
+		switch o.Kind {
+		case "insert":
+			if has {
+				log("%d", dig(old))
+				x.Facts.RemovedBig = x.Facts.RemovedBig || elemBig(m.Elem, old)
+			} else {
+				log("nil")
+			}
+			s.D[o.I] = o.N
+		case "remove":
+			if has {
+				log("%d", dig(old))
+				x.Facts.RemovedBig = x.Facts.RemovedBig || elemBig(m.Elem, old)
+				delete(s.D, o.I)
+			} else {
+				log("nil")
+			}
+		case "get":
+			if has {
+				log("%d", dig(old))
+			} else {
+				log("nil")
+			}
+		case "set":
+			if has {
+				x.Facts.RemovedBig = x.Facts.RemovedBig || elemBig(m.Elem, old)
+			}
+			s.D[o.I] = o.N
+			log("ok")
+		case "setNil":
+			if has {
+				x.Facts.RemovedBig = x.Facts.RemovedBig || elemBig(m.Elem, old)
+			}
+			delete(s.D, o.I)
+			log("ok")
+		case "containsKey":
+			log("%v", has)
+		case "length":
+			log("%d", len(s.D))
+		case "insertMany":
+			for k := 0; k < o.J; k++ {
+				s.D[o.I+k] = o.N + k
+			}
+			x.Facts.GrewBy = max(x.Facts.GrewBy, o.J)
+			log("%d", len(s.D))
+		case "removeMany":
+			cnt := 0
+			for k := 0; k < o.J; k++ {
+				if v, ok := s.D[o.I+k]; ok {
+					x.Facts.RemovedBig = x.Facts.RemovedBig || elemBig(m.Elem, v)
+					delete(s.D, o.I+k)
+					cnt++
+				}
+			}
+			x.Facts.ShrankBy = max(x.Facts.ShrankBy, cnt)
+			log("%d", cnt)
+		case "enumerate":
+			// keys / values / forEachKey / for-in digests must all equal the model's
+			dd := m.dictDigest(s.D)
+			log("%s %s %s %s", dd, dd, dd, dd)
+		case "forEachStop":
+			cnt := len(s.D)
+			if o.J < cnt {
+				cnt = o.J
+			}
+			if o.J == 0 {
+				cnt = min(1, len(s.D)) // the callback returns false on its first call
+			}
+			log("%d", cnt)
+		case "digest":
+			log("%s", m.dictDigest(s.D))
+		default:
+			panic("bad d op " + o.Kind)
+		}
+		x.Facts.MaxLen = max(x.Facts.MaxLen, len(s.D))
+	default:
+		panic("bad target " + o.On)
+	}
+	return ""
+}
+
+// Step predicts one execution.
+func (m *ContModel) Step(e ContExec) ContExpect {
+	before := m.S.clone()
+	var x ContExpect
+	j := e.Inject
+	for i, o := range e.Ops {
+		if j.InBody() && j.Pos == i {
+			x.Fail = "inject"
+			break
+		}
+		if fail := m.apply(i, o, &x); fail != "" {
+			x.Fail = fail
+			x.ErrType = "Ind" // ArrayIndexOutOfBoundsError / ArraySliceIndicesError / …
+			break
+		}
+	}
+	if x.Fail == "" && j != nil {
+		x.Fail = "inject"
+		if j.Kind == "post" && !e.Script {
+			x.Logs = append(x.Logs, "END")
+		}
+	}
+	if x.Fail == "inject" {
+		x.ErrType = j.ErrorType()
+		if e.Script && !j.InBody() {
+			x.ErrType = "PanicError"
+		}
+	}
+	if x.Fail == "" && !e.Script {
+		x.Logs = append(x.Logs, "END")
+		x.Commits = true
+	} else {
+		m.S = before
+	}
+	return x
+}
+
+// ---- rendering ----------------------------------------------------------------
+
+// refOnly / localOnly restrictions: operations that return new arrays are rendered through
+// references only for primitive element types (for other element types such calls return
+// arrays of references).
+func contOpAllowed(o ContOp, elem int, local bool) bool {
+	switch o.Kind {
+	case "concatAssign", "filterAssign", "fromVariable": // assign to the container variable itself
+		if !local {
+			return false
+		}
+	case "slice", "reverse", "concat", "filter", "map", "toConstantSized", "toVariableSized":
+		if !local && !elemPrimitive(elem) {
+			return false
+		}
+	case "contains", "firstIndex":
+		if !elemEquatable(elem) || (!local && !elemPrimitive(elem)) {
+			return false
+		}
+	}
+	return true
+}
+
+type contRender struct {
+	elem, key int
+	local     bool
+}
+
+func (c contRender) E() string { return elemType[c.elem] }
+
+// ref returns an expression of reference type for the container.
+func (c contRender) ref(on string) string {
+	if !c.local {
+		return on
+	}
+	switch on {
+	case "va":
+		return "(&va as &[" + c.E() + "])"
+	case "ca":
+		return fmt.Sprintf("(&ca as &[%s; %d])", c.E(), ConstLen)
+	default:
+		return "(&d as &{" + keyType(c.key) + ": " + c.E() + "})"
+	}
+}
+
+func (c contRender) op(i int, o ContOp) (lines []string) {
+	w := func(f string, args ...any) { lines = append(lines, fmt.Sprintf(f, args...)) }
+	logS := func(expr string) { w(`log("%d:".concat(%s))`, i, expr) }
+	logOK := func() { w(`log("%d:ok")`, i) }
+	E := c.E()
+	x := o.On
+	switch o.On {
+	case "va", "ca":
+		hfun := "D.hr"
+		if o.On == "ca" {
+			hfun = "D.hc"
+		}
+		switch o.Kind {
+		case "append":
+			w(`va.append(D.mk(%d))`, o.N)
+			logOK()
+		case "appendAll":
+			w(`va.appendAll(D.mkMany(%d, %d))`, o.I, o.J)
+			logOK()
+		case "insert":
+			w(`va.insert(at: %d, D.mk(%d))`, o.I, o.N)
+			logOK()
+		case "remove":
+			logS(fmt.Sprintf(`D.d(va.remove(at: %d)).toString()`, o.I))
+		case "removeFirst":
+			logS(`D.d(va.removeFirst()).toString()`)
+		case "removeLast":
+			logS(`D.d(va.removeLast()).toString()`)
+		case "dropMany":
+			w(`var c%d = 0`, i)
+			switch o.Mode {
+			case 0:
+				w(`while c%d < %d && va.length > 0 { va.removeLast(); c%d = c%d + 1 }`, i, o.J, i, i)
+			case 1:
+				w(`while c%d < %d && va.length > 0 { va.removeFirst(); c%d = c%d + 1 }`, i, o.J, i, i)
+			default:
+				w(`while c%d < %d && va.length > 0 { va.remove(at: va.length / 2); c%d = c%d + 1 }`, i, o.J, i, i)
+			}
+			logS(`va.length.toString()`)
+		case "get":
+			if o.On == "va" {
+				logS(fmt.Sprintf(`D.at(%s, %d).toString()`, c.ref("va"), o.I))
+			} else {
+				logS(fmt.Sprintf(`D.atc(%s, %d).toString()`, c.ref("ca"), o.I))
+			}
+		case "set":
+			w(`%s[%d] = D.mk(%d)`, x, o.I, o.N)
+			logOK()
+		case "length":
+			logS(`va.length.toString()`)
+		case "slice":
+			w(`let t%d = va.slice(from: %d, upTo: %d)`, i, o.I, o.J)
+			logS(fmt.Sprintf(`D.hr(&t%d as &[%s])`, i, E))
+		case "reverse":
+			w(`let t%d = %s.reverse()`, i, x)
+			if o.On == "va" {
+				logS(fmt.Sprintf(`D.hr(&t%d as &[%s])`, i, E))
+			} else {
+				logS(fmt.Sprintf(`D.hc(&t%d as &[%s; %d])`, i, E, ConstLen))
+			}
+		case "concat":
+			w(`let t%d = va.concat(D.mkMany(%d, %d))`, i, o.I, o.J)
+			logS(fmt.Sprintf(`D.hr(&t%d as &[%s])`, i, E))
+		case "concatAssign":
+			w(`va = va.concat(D.mkMany(%d, %d))`, o.I, o.J)
+			logS(`va.length.toString()`)
+		case "filter":
+			w(`let t%d = %s.filter(view fun (e: %s): Bool { return ((D.d(e) %% %d) + %d) %% %d == %d })`, i, x, E, o.M, o.M, o.M, o.R)
+			logS(fmt.Sprintf(`D.hr(&t%d as &[%s])`, i, E))
+		case "filterAssign":
+			w(`va = va.filter(view fun (e: %s): Bool { return ((D.d(e) %% %d) + %d) %% %d == %d })`, E, o.M, o.M, o.M, o.R)
+			logS(`va.length.toString()`)
+		case "map":
+			w(`let t%d = %s.map(fun (e: %s): Int { return D.d(e) * %d + %d })`, i, x, E, o.R, o.M)
+			if o.On == "va" {
+				logS(fmt.Sprintf(`D.hi(t%d)`, i))
+			} else {
+				logS(fmt.Sprintf(`D.hi(t%d.toVariableSized())`, i))
+			}
+		case "contains":
+			logS(fmt.Sprintf(`(%s.contains(D.mk(%d)) ? "true" : "false")`, x, o.N))
+		case "firstIndex":
+			logS(fmt.Sprintf(`(%s.firstIndex(of: D.mk(%d))?.toString() ?? "nil")`, x, o.N))
+		case "toConstantSized":
+			w(`if let t%d = va.toConstantSized<[%s; %d]>() { log("%d:".concat(D.hc(&t%d as &[%s; %d]))) } else { log("%d:nil") }`, i, E, ConstLen, i, i, E, ConstLen, i)
+		case "toVariableSized":
+			w(`let t%d = ca.toVariableSized()`, i)
+			logS(fmt.Sprintf(`D.hr(&t%d as &[%s])`, i, E))
+		case "fromVariable":
+			w(`if let t%d = va.toConstantSized<[%s; %d]>() { ca = t%d; log("%d:set") } else { log("%d:nil") }`, i, E, ConstLen, i, i, i)
+		case "digest":
+			logS(fmt.Sprintf(`%s(%s)`, hfun, c.ref(o.On)))
+		default:
+			panic("bad array op " + o.Kind)
+		}
+	case "d":
+		key := fmt.Sprintf("D.key(%d)", o.I)
+		K := keyType(c.key)
+		optDigest := func(expr string) string {
+			return fmt.Sprintf(`if let o%d = %s { log("%d:".concat(D.d(o%d).toString())) } else { log("%d:nil") }`, i, expr, i, i, i)
+		}
+		switch o.Kind {
+		case "insert":
+			w(optDigest(fmt.Sprintf(`d.insert(key: %s, D.mk(%d))`, key, o.N)))
+		case "remove":
+			w(optDigest(fmt.Sprintf(`d.remove(key: %s)`, key)))
+		case "get":
+			logS(fmt.Sprintf(`(D.atd(%s, %s)?.toString() ?? "nil")`, c.ref("d"), key))
+		case "set":
+			w(`d[%s] = D.mk(%d)`, key, o.N)
+			logOK()
+		case "setNil":
+			w(`d[%s] = nil`, key)
+			logOK()
+		case "containsKey":
+			logS(fmt.Sprintf(`(d.containsKey(%s) ? "true" : "false")`, key))
+		case "length":
+			logS(`d.length.toString()`)
+		case "insertMany":
+			w(`var c%d = 0`, i)
+			w(`while c%d < %d { d[D.key(%d + c%d)] = D.mk(%d + c%d); c%d = c%d + 1 }`, i, o.J, o.I, i, o.N, i, i, i)
+			logS(`d.length.toString()`)
+		case "removeMany":
+			w(`var c%d = 0`, i)
+			w(`var n%d = 0`, i)
+			w(`while c%d < %d { if d.containsKey(D.key(%d + c%d)) { n%d = n%d + 1 }; d.remove(key: D.key(%d + c%d)); c%d = c%d + 1 }`, i, o.J, o.I, i, i, i, o.I, i, i, i)
+			logS(fmt.Sprintf(`n%d.toString()`, i))
+		case "enumerate":
+			r := c.ref("d")
+			// 1: keys  2: values (paired by position with keys)  3: forEachKey  4: for-in
+			w(`var s1_%d = 0`, i)
+			w(`var s2_%d = 0`, i)
+			w(`var s3_%d = 0`, i)
+			w(`var s4_%d = 0`, i)
+			w(`let ks%d = d.keys`, i)
+			w(`var q%d = 0`, i)
+			w(`for k in ks%d { s1_%d = (s1_%d + D.entry(k, D.atd(%s, k)!)) %% 1000000007 }`, i, i, i, r)
+			if c.local || elemPrimitive(c.elem) {
+				w(`let vs%d = d.values`, i)
+				w(`while q%d < ks%d.length { s2_%d = (s2_%d + D.entry(ks%d[q%d], D.d(vs%d[q%d]))) %% 1000000007; q%d = q%d + 1 }`, i, i, i, i, i, i, i, i, i, i)
+			} else {
+				w(`s2_%d = s1_%d`, i, i)
+			}
+			w(`d.forEachKey(fun (k: %s): Bool { s3_%d = (s3_%d + D.entry(k, D.atd(%s, k)!)) %% 1000000007; return true })`, K, i, i, r)
+			w(`for k in d.keys { s4_%d = (s4_%d + D.entry(k, D.atd(%s, k)!)) %% 1000000007 }`, i, i, r)
+			w(`let n%d = d.length.toString().concat(":")`, i)
+			logS(fmt.Sprintf(`n%d.concat(s1_%d.toString()).concat(" ").concat(n%d).concat(s2_%d.toString()).concat(" ").concat(n%d).concat(s3_%d.toString()).concat(" ").concat(n%d).concat(s4_%d.toString())`, i, i, i, i, i, i, i, i))
+		case "forEachStop":
+			w(`var c%d = 0`, i)
+			w(`d.forEachKey(fun (k: %s): Bool { c%d = c%d + 1; return c%d < %d })`, K, i, i, i, o.J)
+			logS(fmt.Sprintf(`c%d.toString()`, i))
+		case "digest":
+			logS(fmt.Sprintf(`D.hd(%s)`, c.ref("d")))
+		default:
+			panic("bad d op " + o.Kind)
+		}
+	}
+	return lines
+}
+
+// Source renders the execution.
+func (e ContExec) Source(elem, key int) string {
+	c := contRender{elem: elem, key: key, local: e.Local}
+	E, K := c.E(), keyType(key)
+	var groups [][]string
+	var setup []string
+	if e.Local {
+		setup = []string{
+			fmt.Sprintf(`var va = a0.storage.load<[%s]>(from: /storage/va)!`, E),
+			fmt.Sprintf(`var ca = a0.storage.load<[%s; %d]>(from: /storage/ca)!`, E, ConstLen),
+			fmt.Sprintf(`var d = a0.storage.load<{%s: %s}>(from: /storage/d)!`, K, E),
+		}
+	} else {
+		setup = []string{
+			fmt.Sprintf(`let va = a0.storage.borrow<auth(Mutate) &[%s]>(from: /storage/va)!`, E),
+			fmt.Sprintf(`let ca = a0.storage.borrow<auth(Mutate) &[%s; %d]>(from: /storage/ca)!`, E, ConstLen),
+			fmt.Sprintf(`let d = a0.storage.borrow<auth(Mutate) &{%s: %s}>(from: /storage/d)!`, K, E),
+		}
+	}
+	for i, o := range e.Ops {
+		g := c.op(i, o)
+		if i == 0 {
+			g = append(append([]string(nil), setup...), g...)
+		}
+		groups = append(groups, g)
+	}
+	if e.Local {
+		groups = append(groups, []string{`a0.storage.save(va, to: /storage/va)`, `a0.storage.save(ca, to: /storage/ca)`, `a0.storage.save(d, to: /storage/d)`})
+	}
+	return Wrap("import D from 0x1\n", e.Script, groups, e.Inject)
+}
+
+// ContInitSource creates the three containers.
+func ContInitSource(elem, key int) string {
+	E, K := elemType[elem], keyType(key)
+	return fmt.Sprintf(`import D from 0x1
+transaction {
+  prepare(a0: %s) {
+    a0.storage.save<[%s]>([], to: /storage/va)
+    let ca: [%s; %d] = [D.mk(1), D.mk(2), D.mk(3), D.mk(4), D.mk(5), D.mk(6), D.mk(7), D.mk(8)]
+    a0.storage.save(ca, to: /storage/ca)
+    a0.storage.save<{%s: %s}>({}, to: /storage/d)
+    log("END")
+  }
+}
+`, AccountAuth, E, E, ConstLen, K, E)
+}
+
+// ContVerifyScript digests the three committed containers.
+func ContVerifyScript(elem, key int) string {
+	E, K := elemType[elem], keyType(key)
+	return fmt.Sprintf(`import D from 0x1
+access(all) fun main(): [String] {
+  let a = getAuthAccount<auth(Storage) &Account>(0x1)
+  let va = a.storage.borrow<&[%s]>(from: /storage/va)!
+  let ca = a.storage.borrow<&[%s; %d]>(from: /storage/ca)!
+  let d = a.storage.borrow<&{%s: %s}>(from: /storage/d)!
+  return [D.hr(va), D.hc(ca), D.hd(d)]
+}
+`, E, E, ConstLen, K, E)
+}
+
+func (h ContHistory) History() prog.History {
+	out := prog.History{Origin: "storgen.cont", Features: []string{"containers", "storage", "elem-" + ElemName[h.Elem]}}
+	out.Steps = append(out.Steps, prog.Step{Kind: prog.Deploy, Name: "D", Source: ContContract(h.Elem, h.Key), Signers: []uint64{1}})
+	out.Steps = append(out.Steps, prog.Step{Kind: prog.Tx, Source: ContInitSource(h.Elem, h.Key), Signers: []uint64{1}})
+	for _, e := range h.Execs {
+		st := prog.Step{Kind: prog.Tx, Source: e.Source(h.Elem, h.Key), Signers: []uint64{1, 2, 3}, MayFail: true}
+		if e.Script {
+			st = prog.Step{Kind: prog.Script, Source: e.Source(h.Elem, h.Key), MayFail: true}
+		}
+		out.Steps = append(out.Steps, st)
+	}
+	out.Steps = append(out.Steps, prog.Step{Kind: prog.Script, Source: ContVerifyScript(h.Elem, h.Key)})
+	return out
+}
+
+// ---- generator ----------------------------------------------------------------
+
+type ContGenConfig struct {
+	MaxExecs   int // default 25
+	MaxOps     int // default 12
+	Injections bool
+}
+
+var contBulk = []int{1, 3, 60, 8, 150, 25, 400}
+
+var vaKinds = []string{"append", "appendAll", "get", "set", "insert", "remove", "removeLast", "removeFirst", "dropMany", "length", "digest",
+	"slice", "reverse", "concat", "concatAssign", "filter", "filterAssign", "map", "contains", "firstIndex", "toConstantSized"}
+var caKinds = []string{"get", "set", "digest", "reverse", "contains", "firstIndex", "toVariableSized", "map", "filter", "fromVariable"}
+var dKinds = []string{"insert", "insertMany", "get", "set", "remove", "setNil", "containsKey", "length", "digest", "removeMany", "enumerate", "forEachStop"}
+
+// GenContHistory draws a container history.
+func GenContHistory(s Src, cfg ContGenConfig) ContHistory {
+	if cfg.MaxExecs == 0 {
+		cfg.MaxExecs = 25
+	}
+	if cfg.MaxOps == 0 {
+		cfg.MaxOps = 12
+	}
+	h := ContHistory{Elem: s.Intn("elem", NElem), Key: s.Intn("keytype", 2)}
+	m := NewContModel(h.Elem, h.Key)
+	seed := 10
+	fresh := func() int { seed++; return seed }
+	n := 1 + s.Intn("execs", cfg.MaxExecs)
+	for len(h.Execs) < n {
+		e := ContExec{Script: chance(s, "script", 12), Local: chance(s, "local", 35)}
+		nOps := 1 + s.Intn("nops", cfg.MaxOps)
+		scratch := &ContModel{Elem: m.Elem, Key: m.Key, S: m.S.clone()}
+		var x ContExpect
+		for i := 0; i < nOps; i++ {
+			o, ok := genContOp(s, scratch, e.Local, fresh)
+			if !ok {
+				continue
+			}
+			e.Ops = append(e.Ops, o)
+			if fail := scratch.apply(len(e.Ops)-1, o, &x); fail != "" {
+				break
+			}
+		}
+		if len(e.Ops) == 0 {
+			continue
+		}
+		if cfg.Injections && chance(s, "inject", 35) {
+			e.Inject = GenInject(s, len(e.Ops), e.Script)
+		} else if !e.Script && chance(s, "abort", 6) {
+			e.Inject = &Inject{Kind: "panic", Pos: len(e.Ops)}
+		}
+		h.Execs = append(h.Execs, e)
+		m.Step(e)
+	}
+	return h
+}
+
+func sortedIntKeys(m map[int]int) []int {
+	out := make([]int, 0, len(m))
+	for k := range m {
+		out = append(out, k)
+	}
+	sort.Ints(out)
+	return out
+}
+
+func genContOp(s Src, m *ContModel, local bool, fresh func() int) (ContOp, bool) {
+	var o ContOp
+	switch pick(s, "target", 5, 2, 4) {
+	case 0:
+		o.On, o.Kind = "va", vaKinds[s.Intn("vakind", len(vaKinds))]
+	case 1:
+		o.On, o.Kind = "ca", caKinds[s.Intn("cakind", len(caKinds))]
+	default:
+		o.On, o.Kind = "d", dKinds[s.Intn("dkind", len(dKinds))]
+	}
+	if !contOpAllowed(o, m.Elem, local) {
+		return o, false
+	}
+	st := m.S
+	// an existing seed (for contains / firstIndex hits) or a fresh one
+	someSeed := func() int {
+		pool := append(append([]int(nil), st.VA...), st.CA[:]...)
+		if len(pool) > 0 && chance(s, "hit", 60) {
+			return pool[s.Intn("hitidx", len(pool))]
+		}
+		return fresh()
+	}
+	// index into a sequence of length n: mostly valid, sometimes just outside
+	index := func(n int, inclusiveEnd bool) int {
+		hi := n
+		if inclusiveEnd {
+			hi = n + 1
+		}
+		if hi > 0 && !chance(s, "badindex", 7) {
+			return s.Intn("index", hi)
+		}
+		return []int{hi, -1, hi + 3}[s.Intn("badkind", 3)]
+	}
+	dictKey := func() int {
+		ks := sortedIntKeys(st.D)
+		if len(ks) > 0 && chance(s, "haskey", 60) {
+			return ks[s.Intn("keyidx", len(ks))]
+		}
+		return s.Intn("newkey", 40)
+	}
+	switch o.On {
+	case "va":
+		n := len(st.VA)
+		switch o.Kind {
+		case "append":
+			o.N = fresh()
+		case "appendAll", "concat", "concatAssign":
+			o.I, o.J = fresh(), contBulk[s.Intn("bulk", len(contBulk))]
+			for k := 0; k < o.J; k++ {
+				fresh()
+			}
+		case "insert":
+			o.I, o.N = index(n, true), fresh()
+		case "remove", "get":
+			o.I = index(n, false)
+		case "set":
+			o.I, o.N = index(n, false), fresh()
+		case "removeFirst", "removeLast":
+			if n == 0 && !chance(s, "emptyremove", 20) {
+				return o, false
+			}
+		case "dropMany":
+			if n == 0 {
+				return o, false
+			}
+			o.J, o.Mode = 1+s.Intn("count", n), s.Intn("mode", 3)
+			if chance(s, "most", 40) {
+				o.J = n - s.Intn("keep", min(n, 5)+1) + 1
+				if o.J < 1 {
+					o.J = 1
+				}
+			}
+		case "slice":
+			o.I = index(n, true)
+			o.J = index(n, true)
+			if o.I > o.J && !chance(s, "badslice", 10) {
+				o.I, o.J = o.J, o.I
+			}
+		case "filter", "filterAssign":
+			o.M = 2 + s.Intn("mod", 4)
+			o.R = s.Intn("rem", o.M)
+		case "map":
+			o.R, o.M = 1+s.Intn("factor", 3), s.Intn("addend", 10)
+		case "contains", "firstIndex":
+			o.N = someSeed()
+		}
+	case "ca":
+		switch o.Kind {
+		case "get":
+			o.I = index(ConstLen, false)
+		case "set":
+			o.I, o.N = index(ConstLen, false), fresh()
+		case "contains", "firstIndex":
+			o.N = someSeed()
+		case "map":
+			o.R, o.M = 1+s.Intn("factor", 3), s.Intn("addend", 10)
+		case "filter":
+			o.M = 2 + s.Intn("mod", 4)
+			o.R = s.Intn("rem", o.M)
+		}
+	case "d":
+		switch o.Kind {
+		case "insert", "set":
+			o.I, o.N = dictKey(), fresh()
+		case "remove", "get", "setNil", "containsKey":
+			o.I = dictKey()
+		case "insertMany":
+			o.I, o.J, o.N = s.Intn("from", 300), contBulk[s.Intn("bulk", len(contBulk)-1)], fresh()
+			for k := 0; k < o.J; k++ {
+				fresh()
+			}
+		case "removeMany":
+			ks := sortedIntKeys(st.D)
+			if len(ks) == 0 {
+				return o, false
+			}
+			o.I = ks[s.Intn("fromkey", len(ks))]
+			o.J = contBulk[s.Intn("bulk", len(contBulk)-1)]
+			if chance(s, "all", 30) {
+				o.I, o.J = ks[0], ks[len(ks)-1]-ks[0]+1
+			}
+		case "forEachStop":
+			o.J = s.Intn("stop", 6)
+		}
+	}
+	return o, true
+}
